@@ -1,6 +1,7 @@
 import OVM.Kernel.Frames
 import OVM.Spec.Fan
 import OVM.Props.C08
+import OVM.Refine.FanLemmas
 /-
   C09 — halffaces around an edge in rotational order; in-cell adjacency.
   Proved here about `reorder_incident_halffaces` as modelled (for every state):
@@ -12,9 +13,32 @@ import OVM.Props.C08
     opposite halfedge's slot its mirrored reverse (`reverse.map opp`);
   * `reorder` changes nothing but the two slots of that edge (frame) and keeps their lengths.
   Together: right after `reorder e` on a single-fan edge the cached list is in rotational order.
-  That the order survives every later mutator (`RotInv` across histories) is evaluated on every
-  step of the correspondence run by the decidable fan-order predicate (Spec/Fan.lean) and is on
-  the hard rung of the ladder.
+  In-cell adjacency (`adjacent_halfface_in_cell`, lemmas in OVM/Refine/FanLemmas.lean):
+  * `adj_sound` — for every state: a returned halfface is a member of the incident cell of `hf`
+    (which lists `hf`), is neither `hf` nor `opp hf`, and holds the opposite of the halfedge used;
+  * `adj_unique_involutive` — in a closed cell (`ClosedSurface`, what `add_cell` checks) that is
+    not self-adjacent at the edge, the result is the unique other halfface of the cell at that
+    edge, either orientation of the halfedge gives it, and asking again returns the start;
+  * `adj_selfadjacent_none` — in a closed cell listing both halffaces of a face the function
+    returns the invalid handle at the halfedges of that face.
+  Rotational order for a given state (predicates in OVM/Refine/FanLemmas.lean, all decidable and about
+  the definitions, the cell flags and `incident_cell_per_hf_`):
+  * `reorderList_fan_order` — on a well-formed fan (`FanOK`: members interior or boundary, cells
+    closed surfaces not self-adjacent at the edge, cache consistent), whatever
+    `reorder_incident_halffaces` stores is a permutation in which every element with a successor is
+    followed by its rotation successor `sFanNext` of Spec/Fan.lean (the opposite of its in-cell
+    neighbour), a boundary halfface can only come last, and the last leads back to the first or is
+    a boundary halfface; `reorderList_closed_ring_fan_order` is the cyclic form for closed rings;
+  * `reorderList_single_fan_stores` — on a single fan (`SingleFan`: additionally closed under the
+    rotation and connected; closed ring or open chain, any valence ≥ 2) the function does store;
+  * `reorder_single_fan_partial`, `reorder_establishes_order` — hence after `reorder e` the cache of a
+    single-fan edge is in rotational order with the mirrored reverse at the opposite halfedge.
+  Towards `RotInv`: `reorder e'` changes nothing the order predicate reads at another edge
+  (`reorder_elsewhere`), a sweep of `reorder` over pairwise different edges orders every single fan
+  among them (`foldl_reorder_orders`), so `add_cell` leaves every affected single-fan edge ordered
+  (`addCellCore_orders_affected_partial`).  Not proved: untouched edges keep their order under
+  `add_cell` (their lists and successor maps are unchanged), the deleting mutators, garbage
+  collection and swaps; the history-level statement stays dynamic.
 -/
 namespace OVM.Props.C09
 open OVM OVM.Kernel
@@ -149,5 +173,816 @@ theorem reorder_stores_permutation (k : Kernel) (e : Nat) (l : List Nat) (h : k.
 example :
     let k : Kernel := { incHfs := [[4, 2, 0], [5, 1, 3]], eBU := true }
     (k.reorderWrite 0 [0, 2, 4]).incHfs = [[0, 2, 4], [5, 3, 1]] := by decide
+
+/-! ### in-cell adjacency -/
+
+/-- **soundness of `adjacent_halfface_in_cell`** for every state and every pair of handles: what it
+    returns is a halfface `a` of the incident cell `c` of `hf`; that cell lists `hf`; `a` is neither
+    `hf` nor its opposite; and `a` contains the opposite of the halfedge that `hf` contains — the
+    given one, or (legacy flip) its opposite when `hf` contains only that. -/
+theorem adj_sound (k : Kernel) (hf he a : Nat) (h : k.adjHalffaceInCell hf he = some a) :
+    ∃ c, k.cellOf hf = some c ∧ hf ∈ k.cellAt c ∧ a ∈ k.cellAt c ∧ a ≠ hf ∧ a ≠ opp hf ∧
+      ((he ∈ k.hfHes hf ∧ opp he ∈ k.hfHes a) ∨
+       (he ∉ k.hfHes hf ∧ opp he ∈ k.hfHes hf ∧ he ∈ k.hfHes a)) := Fan.adj_sound k hf he a h
+
+/-- **closed cells: unique and involutive.**  Let the halfface list of cell `c` be a closed surface
+    (`ClosedSurface`: no halfedge used twice, every used halfedge has its opposite used — what
+    `add_cell`'s check decides, C11), let `c` be the cached incident cell of its halffaces, and let
+    the cell not be self-adjacent at the edge of `he` (`EdgeProper`: no halfface at that edge has
+    its opposite in the cell or contains both halfedges of the edge).  For a halfface `hf` of the
+    cell containing `he` there is `a` with: `adj hf he = adj hf (opp he) = a`; `a` is a halfface of
+    the cell, `a ≠ hf`, `a` contains `opp he`; every other halfface of the cell touching the edge
+    equals `a`; and `adj a (opp he) = adj a he = hf` ("applying it twice returns the start"). -/
+theorem adj_unique_involutive (k : Kernel) (hf he c : Nat)
+    (hcons : ∀ y ∈ k.cellAt c, k.cellOf y = some c) (hcl : ClosedSurface k (k.cellAt c))
+    (hp : Fan.EdgeProper k (k.cellAt c) he) (hmem : hf ∈ k.cellAt c) (hhe : he ∈ k.hfHes hf) :
+    ∃ a, k.adjHalffaceInCell hf he = some a ∧ k.adjHalffaceInCell hf (opp he) = some a ∧
+      a ∈ k.cellAt c ∧ a ≠ hf ∧ opp he ∈ k.hfHes a ∧
+      (∀ y ∈ k.cellAt c, y ≠ hf → (he ∈ k.hfHes y ∨ opp he ∈ k.hfHes y) → y = a) ∧
+      k.adjHalffaceInCell a (opp he) = some hf ∧ k.adjHalffaceInCell a he = some hf :=
+  Fan.adj_closed_cell k hf he c hcons hcl hp hmem hhe
+
+/-- the involution in the form "apply twice": under the hypotheses above
+    `adj (adj hf he) (opp he) = hf` -/
+theorem adj_adj (k : Kernel) (hf he c : Nat)
+    (hcons : ∀ y ∈ k.cellAt c, k.cellOf y = some c) (hcl : ClosedSurface k (k.cellAt c))
+    (hp : Fan.EdgeProper k (k.cellAt c) he) (hmem : hf ∈ k.cellAt c) (hhe : he ∈ k.hfHes hf) :
+    (k.adjHalffaceInCell hf he).bind (fun a => k.adjHalffaceInCell a (opp he)) = some hf := by
+  obtain ⟨a, h1, _, _, _, _, _, h2, _⟩ := adj_unique_involutive k hf he c hcons hcl hp hmem hhe
+  rw [h1]; exact h2
+
+/-- **cells containing both halffaces of a face** (the excluded case above, stated as what the code
+    does): in a closed cell that lists `hf` and `opp hf`, `adjacent_halfface_in_cell(hf, he)` is the
+    invalid handle for every halfedge `he` of `hf` — the only halfface of the cell holding `opp he`
+    is `opp hf`, which the scan skips (cc:2290). -/
+theorem adj_selfadjacent_none (k : Kernel) (hf he c : Nat) (hc : k.cellOf hf = some c)
+    (hcl : ClosedSurface k (k.cellAt c)) (hmem : hf ∈ k.cellAt c) (hopp : opp hf ∈ k.cellAt c)
+    (hhe : he ∈ k.hfHes hf) : k.adjHalffaceInCell hf he = none :=
+  Fan.adj_none_of_selfadjacent k hf he c hc hcl hmem hopp hhe
+
+/-! ### rotational order on a closed ring -/
+
+theorem chain_index (k : Kernel) (he : Nat) : ∀ (l : List Nat) (i : Nat), Chain k he l → i + 1 < l.length →
+    ∃ x, k.adjHalffaceInCell (l.getD i 0) he = some x ∧ l.getD (i + 1) 0 = opp x := by
+  intro l
+  induction l with
+  | nil => intro i _ h; simp at h
+  | cons a t ih =>
+    intro i hc hi
+    cases t with
+    | nil => simp at hi
+    | cons b t' =>
+      cases i with
+      | zero => obtain ⟨x, hx, hb⟩ := hc.2.1; exact ⟨x, by simpa using hx, by simpa using hb⟩
+      | succ j =>
+        have := ih j hc.2.2 (by simp at hi ⊢; omega)
+        simpa using this
+
+theorem getLast?_getD_eq (l : List Nat) : l.getLast?.getD 0 = l.getD (l.length - 1) 0 := by
+  rw [List.getLast?_eq_getElem?, List.getD_eq_getElem?_getD]
+
+/-- **fan order on a closed ring.**  If edge `e` is surrounded by a closed ring of cells
+    (`Fan.ClosedRing`: the cached halffaces of halfedge `2e` are pairwise different, each contains
+    the halfedge and has a cached incident cell which is the one the definitions give, is a closed
+    surface, is not self-adjacent at `e`, and is the cached cell of all its halffaces), then the
+    list `reorder_incident_halffaces(e)` stores — whenever it stores one — is a permutation of the
+    cached list in which every halfface is followed, cyclically, by its successor in the rotation
+    around the edge as the specification computes it from the definitions (`sFanNext`: the
+    opposite of the other halfface of its cell at that edge). -/
+theorem reorderList_closed_ring_fan_order (k : Kernel) (e : Nat) (l : List Nat)
+    (hr : Fan.ClosedRing k e) (h : k.reorderList e = some l) :
+    l.Perm (k.hfsOf (heOf e 0)) ∧
+    ∀ i, i < l.length → k.sFanNext (heOf e 0) (l.getD i 0) = some (l.getD ((i + 1) % l.length) 0) := by
+  have hperm := reorderList_perm k e l h
+  refine ⟨hperm, ?_⟩
+  have hnd : l.Nodup := hperm.nodup_iff.mpr hr.1
+  have hmemb : ∀ y ∈ l, Fan.RingMember k (heOf e 0) y := fun y hy => hr.2 y (hperm.mem_iff.mp hy)
+  unfold reorderList at h
+  simp only at h
+  split at h
+  · cases h
+  · cases hh : (k.hfsOf (heOf e 0)).head? with
+    | none => simp [hh] at h
+    | some start =>
+      simp only [hh] at h
+      cases hw : k.walkFwd (heOf e 0) start (k.hfsOf (heOf e 0)).length ((k.hfsOf (heOf e 0)).length + 1) start [] with
+      | abort => simp [hw] at h
+      | stop acc =>
+        simp only [hw] at h
+        obtain ⟨hchain, ⟨tl, htl⟩, hclose⟩ :=
+          walkFwd_chain k (heOf e 0) start _ _ start [] acc (by exact trivial) hw
+        have hacc_ne : acc ≠ [] := by rw [htl]; simp
+        have hz_mem : acc.getLast?.getD 0 ∈ acc := by
+          rw [List.getLast?_eq_some_getLast hacc_ne]; exact List.getLast_mem hacc_ne
+        have hhead : acc.getD 0 0 = start := by rw [htl]; simp
+        -- the walked part is contained in what is stored
+        have hsub : ∃ pre, l = pre ++ acc := by
+          split at h
+          · cases h
+          · rename_i acc2 hres
+            split at h
+            · injection h with h; subst h
+              split at hres
+              · exact Fan.walkBwd_suffix k _ _ _ _ _ _ hres
+              · injection hres with hres; exact ⟨[], by simp [hres]⟩
+            · cases h
+        obtain ⟨pre, hpre⟩ := hsub
+        have hz_l : acc.getLast?.getD 0 ∈ l := by rw [hpre]; exact List.mem_append_right _ hz_mem
+        obtain ⟨hzhe, c, hzc, _, hzm, hcd, hcl, hep, hcons⟩ := (hmemb _ hz_l).unpack
+        -- the forward walk did not end at a boundary: it came back to the start
+        have hclose' : ∃ x, k.adjHalffaceInCell (acc.getLast?.getD 0) (heOf e 0) = some x ∧ opp x = start := by
+          rcases hclose with hb | hx
+          · rw [Fan.notBoundary_of_cell k _ c hzc hcd] at hb; cases hb
+          · exact hx
+        obtain ⟨x, hax, hxs⟩ := hclose'
+        by_cases hlen : acc.length = (k.hfsOf (heOf e 0)).length
+        · -- the forward walk collected everything
+          have hl : l = acc := by
+            have hne : (acc.length != (k.hfsOf (heOf e 0)).length) = false := by simp [hlen]
+            simp only [hne, Bool.false_eq_true, if_false] at h
+            split at h
+            · injection h with h; exact h.symm
+            · cases h
+          subst hl
+          intro i hi
+          by_cases hlast : i + 1 < l.length
+          · obtain ⟨y, hy, hnext⟩ := chain_index k (heOf e 0) l i hchain hlast
+            rw [Nat.mod_eq_of_lt hlast, hnext]
+            have him : l.getD i 0 ∈ l := by
+              rw [List.getD_eq_getElem?_getD, List.getElem?_eq_getElem hi]; exact List.getElem_mem hi
+            exact Fan.sFanNext_of_adj k _ _ y (hmemb _ him) hy
+          · have hi' : i = l.length - 1 := by omega
+            have hmod : (i + 1) % l.length = 0 := by
+              have : i + 1 = l.length := by omega
+              rw [this, Nat.mod_self]
+            rw [hmod, hhead, hi', ← getLast?_getD_eq, ← hxs]
+            exact Fan.sFanNext_of_adj k _ _ x (hmemb _ hz_l) hax
+        · -- otherwise the backward walk would store the last halfface a second time
+          exfalso
+          have hne : (acc.length != (k.hfsOf (heOf e 0)).length) = true := by simp [hlen]
+          simp only [hne, if_true] at h
+          obtain ⟨c', hc', _, hxm, hxz, _, hor⟩ := Fan.adj_sound k _ _ x hax
+          have hcc : c' = c := by rw [hzc] at hc'; injection hc' with e; exact e.symm
+          subst hcc
+          have hxh : opp (heOf e 0) ∈ k.hfHes x := by
+            rcases hor with h1 | h1
+            · exact h1.2
+            · exact absurd hzhe h1.1
+          have hxeq : opp start = x := by rw [← hxs, CellCheck.opp_opp]
+          have hb : k.hfOnBoundaryOrDeleted (opp start) = false := by
+            rw [hxeq]; exact Fan.notBoundary_of_cell k x c' (hcons x hxm) hcd
+          have hback : k.adjHalffaceInCell (opp start) (opp (heOf e 0)) = some (acc.getLast?.getD 0) := by
+            rw [hxeq]
+            exact Fan.adj_eq_some_of_closed k x (opp (heOf e 0)) c' _ (hcons x hxm) hcl hxm hxh hzm
+              (by rw [CellCheck.opp_opp]; exact hzhe) (Ne.symm hxz) (hep x hxm (Or.inr hxh)).1
+          split at h
+          · cases h
+          · rename_i acc2 hwb
+            split at h
+            · injection h with h; subst h
+              obtain ⟨pre2, hp2⟩ := Fan.walkBwd_first k _ _ _ start _ acc _ hb hback hwb
+              rw [hp2] at hnd
+              have := (List.nodup_append.mp hnd).2.1
+              exact (List.nodup_cons.mp this).1 hz_mem
+            · cases h
+
+/-- **after `reorder e` a closed ring is in rotational order** (partial): if the call stores a list
+    at all, then afterwards the cache slot of halfedge `2e` is a permutation of the old slot in which
+    every halfface is followed cyclically by `sFanNext` *in the new state*, and the slot of the
+    opposite halfedge is its mirrored reverse.
+    Partial: assumes that a list is stored (for single fans this is
+    `reorderList_single_ring_stores` / `reorderList_single_fan_stores`); open chains are covered by
+    `reorder_fan_order_partial`; preservation by later mutators (`RotInv`) is not covered. -/
+theorem reorder_closed_ring_partial (k : Kernel) (e : Nat) (l : List Nat)
+    (hr : Fan.ClosedRing k e) (h : k.reorderList e = some l)
+    (h1 : heOf e 1 < k.incHfs.length) (hl : (k.hfsOf (heOf e 1)).length = (k.hfsOf (heOf e 0)).length) :
+    (k.reorder e).hfsOf (heOf e 0) = l ∧ (k.reorder e).hfsOf (heOf e 1) = l.reverse.map opp ∧
+    l.Perm (k.hfsOf (heOf e 0)) ∧
+    ∀ i, i < l.length →
+      (k.reorder e).sFanNext (heOf e 0) (l.getD i 0) = some (l.getD ((i + 1) % l.length) 0) := by
+  obtain ⟨hperm, hfan⟩ := reorderList_closed_ring_fan_order k e l hr h
+  have hw := reorderWrite_slots k e l h1 (by rw [hl]; exact hperm.length_eq.symm)
+  have hre : k.reorder e = k.reorderWrite e l := by unfold reorder; rw [h]
+  refine ⟨by rw [hre]; exact hw.1, by rw [hre]; exact hw.2.1, hperm, ?_⟩
+  -- `sFanNext` reads only the cell and face definitions and the cell flags
+  have hframe : ∀ hf, (k.reorder e).sFanNext (heOf e 0) hf = k.sFanNext (heOf e 0) hf := by
+    intro hf
+    unfold sFanNext sAdj sCellOf sCellsOfHf liveCells cellAt hfHes faceAt cDeleted nC
+    simp only [reorder_cells, reorder_faces, reorder_cDel]
+  intro i hi
+  rw [hframe]; exact hfan i hi
+
+/-! ### rotational order on any well-formed fan (closed ring or open chain) -/
+
+/-- the second direction of `reorder_incident_halffaces` extends a rotation chain to the front -/
+theorem walkBwd_chain (k : Kernel) (he n : Nat) (res : List Nat)
+    (hback : ∀ y ∈ res, k.cellOf (opp y) = none ∨ Fan.RingMember k (opp he) (opp y)) :
+    ∀ (fuel cur : Nat) (acc : List Nat), acc.head? = some cur → Chain k he acc →
+      k.walkBwd (opp he) n fuel cur acc = .stop res → Chain k he res := by
+  intro fuel
+  induction fuel with
+  | zero => intro cur acc _ _ h; simp [walkBwd] at h
+  | succ f ih =>
+    intro cur acc hh hc h
+    unfold walkBwd at h
+    simp only at h
+    split at h
+    · injection h with h; subst h; exact hc
+    · rename_i hb
+      split at h
+      · cases h
+      · rename_i a ha
+        split at h
+        · cases h
+        · obtain ⟨pre, hpre⟩ := Fan.walkBwd_suffix k _ _ _ _ _ _ h
+          cases acc with
+          | nil => simp at hh
+          | cons c t =>
+            simp only [List.head?_cons, Option.some.injEq] at hh
+            subst hh
+            have hcm : c ∈ res := by rw [hpre]; simp
+            have hb' : k.hfOnBoundaryOrDeleted (opp c) = false := by simpa using hb
+            have hring : Fan.RingMember k (opp he) (opp c) := by
+              rcases hback c hcm with h0 | h0
+              · rw [Fan.boundary_of_cellOf_none k _ h0] at hb'; cases hb'
+              · exact h0
+            obtain ⟨x, hx, hxb⟩ := Fan.ring_adj k (opp he) (opp c) hring
+            have hxa : x = a := by rw [ha] at hx; injection hx with hx; exact hx.symm
+            subst hxa
+            rw [CellCheck.opp_opp] at hxb
+            obtain ⟨_, cc, hcc, _, _, hcd, _, _, hcons⟩ := hring.unpack
+            obtain ⟨c', hc', _, hxm, _⟩ := Fan.adj_sound k _ _ x ha
+            have : c' = cc := by rw [hcc] at hc'; injection hc' with e; exact e.symm
+            subst this
+            have hxnb : k.hfOnBoundaryOrDeleted x = false :=
+              Fan.notBoundary_of_cell k x c' (hcons x hxm) hcd
+            exact ih x (x :: c :: t) rfl
+              ⟨hxnb, ⟨opp c, hxb, (CellCheck.opp_opp c).symm⟩, hc⟩ h
+
+/-- **what `reorder_incident_halffaces` stores on a well-formed fan is in rotational order**, closed
+    ring or open chain, any valence.  Hypothesis `Fan.FanOK k e` (decidable; about the definitions
+    and `incident_cell_per_hf_`): the cached halffaces of halfedge `2e` are pairwise different and
+    each is an interior member (its cached cell is the one the definitions give, a closed surface,
+    not self-adjacent at the edge, the cached cell of all its halffaces) or has no incident cell,
+    and likewise for its opposite halfface and the opposite halfedge.  Then a stored list `l` is a
+    permutation of the cached one with
+    * every element that has a successor in `l` is followed by its rotation successor
+      `sFanNext` (so it is not a boundary halfface: a boundary halfface can only come last);
+    * the last element either has no rotation successor (boundary: open chain) or its successor is
+      the first element (closed ring). -/
+theorem reorderList_fan_order (k : Kernel) (e : Nat) (l : List Nat)
+    (hok : Fan.FanOK k e) (h : k.reorderList e = some l) :
+    l.Perm (k.hfsOf (heOf e 0)) ∧
+    (∀ i, i + 1 < l.length → k.sFanNext (heOf e 0) (l.getD i 0) = some (l.getD (i + 1) 0)) ∧
+    (k.sFanNext (heOf e 0) (l.getD (l.length - 1) 0) = none ∨
+     k.sFanNext (heOf e 0) (l.getD (l.length - 1) 0) = some (l.getD 0 0)) := by
+  have hperm := reorderList_perm k e l h
+  refine ⟨hperm, ?_⟩
+  have hnd : l.Nodup := hperm.nodup_iff.mpr hok.1
+  have hmemb : ∀ y ∈ l, Fan.FanMember k (heOf e 0) y := fun y hy => hok.2 y (hperm.mem_iff.mp hy)
+  -- it is enough to have a rotation chain whose last element is a boundary or leads to the first
+  suffices hkey : Chain k (heOf e 0) l ∧ l ≠ [] ∧
+      (k.hfOnBoundaryOrDeleted (l.getLast?.getD 0) = true ∨
+       ∃ x, k.adjHalffaceInCell (l.getLast?.getD 0) (heOf e 0) = some x ∧ opp x = l.getD 0 0) by
+    obtain ⟨hchain, hlne, hclose⟩ := hkey
+    have hlast_mem : l.getLast?.getD 0 ∈ l := by
+      rw [List.getLast?_eq_some_getLast hlne]; exact List.getLast_mem hlne
+    refine ⟨?_, ?_⟩
+    · intro i hi
+      obtain ⟨y, hy, hnext⟩ := chain_index k (heOf e 0) l i hchain hi
+      have him : l.getD i 0 ∈ l := by
+        rw [List.getD_eq_getElem?_getD, List.getElem?_eq_getElem (by omega)]; exact List.getElem_mem _
+      have hnb : k.hfOnBoundaryOrDeleted (l.getD i 0) = false := by
+        obtain ⟨c, hc, hm, _⟩ := Fan.adj_sound k _ _ y hy
+        cases hb : k.hfOnBoundaryOrDeleted (l.getD i 0) with
+        | false => rfl
+        | true =>
+          exfalso
+          rcases (hmemb _ him).1 with h1 | h1
+          · rw [Fan.ring_notBoundary k _ _ h1] at hb; cases hb
+          · rw [h1.1] at hc; cases hc
+      rw [hnext]
+      exact Fan.sFanNext_of_adj k _ _ y ((hmemb _ him).ring_of_notBoundary hnb) hy
+    · rw [← getLast?_getD_eq]
+      rcases hclose with hb | ⟨x, hx, hxs⟩
+      · left; exact (hmemb _ hlast_mem).sFanNext_none hb
+      · right
+        obtain ⟨c, hc, _⟩ := Fan.adj_sound k _ _ x hx
+        have hring : Fan.RingMember k (heOf e 0) (l.getLast?.getD 0) := by
+          rcases (hmemb _ hlast_mem).1 with h1 | h1
+          · exact h1
+          · rw [h1.1] at hc; cases hc
+        rw [← hxs]
+        exact Fan.sFanNext_of_adj k _ _ x hring hx
+  unfold reorderList at h
+  simp only at h
+  split at h
+  · cases h
+  · cases hh : (k.hfsOf (heOf e 0)).head? with
+    | none => simp [hh] at h
+    | some start =>
+      simp only [hh] at h
+      cases hw : k.walkFwd (heOf e 0) start (k.hfsOf (heOf e 0)).length ((k.hfsOf (heOf e 0)).length + 1) start [] with
+      | abort => simp [hw] at h
+      | stop acc =>
+        simp only [hw] at h
+        obtain ⟨hchain, ⟨tl, htl⟩, hclose⟩ :=
+          walkFwd_chain k (heOf e 0) start _ _ start [] acc (by exact trivial) hw
+        have hacc_ne : acc ≠ [] := by rw [htl]; simp
+        have hz_mem : acc.getLast?.getD 0 ∈ acc := by
+          rw [List.getLast?_eq_some_getLast hacc_ne]; exact List.getLast_mem hacc_ne
+        have hhead : acc.getD 0 0 = start := by rw [htl]; simp
+        have hacc_head : acc.head? = some start := by rw [htl]; simp
+        by_cases hlen : acc.length = (k.hfsOf (heOf e 0)).length
+        · have hl : l = acc := by
+            have hne : (acc.length != (k.hfsOf (heOf e 0)).length) = false := by simp [hlen]
+            simp only [hne, Bool.false_eq_true, if_false] at h
+            split at h
+            · injection h with h; exact h.symm
+            · cases h
+          subst hl
+          exact ⟨hchain, hacc_ne, by rw [hhead]; exact hclose⟩
+        · have hne : (acc.length != (k.hfsOf (heOf e 0)).length) = true := by simp [hlen]
+          simp only [hne, if_true] at h
+          split at h
+          · cases h
+          · rename_i acc2 hwb
+            split at h
+            · injection h with h; subst h
+              obtain ⟨pre, hpre⟩ := Fan.walkBwd_suffix k _ _ _ _ _ _ hwb
+              have hz_l : acc.getLast?.getD 0 ∈ acc2 := by rw [hpre]; exact List.mem_append_right _ hz_mem
+              have hlast_eq : acc2.getLast?.getD 0 = acc.getLast?.getD 0 := by
+                rw [hpre, List.getLast?_append, List.getLast?_eq_some_getLast hacc_ne]; rfl
+              rcases hclose with hb | ⟨x, hax, hxs⟩
+              · -- open chain: the backward walk extends the chain to the front
+                have hback : ∀ y ∈ acc2, k.cellOf (opp y) = none ∨ Fan.RingMember k (opp (heOf e 0)) (opp y) :=
+                  fun y hy => (hmemb y hy).2
+                have hc2 := walkBwd_chain k (heOf e 0) _ acc2 hback _ start acc hacc_head hchain hwb
+                refine ⟨hc2, by rw [hpre]; simp [hacc_ne], Or.inl ?_⟩
+                rw [hlast_eq]; exact hb
+              · -- the forward walk closed a cycle that does not cover the list: the backward walk
+                -- would store the last halfface a second time
+                exfalso
+                obtain ⟨c', hc', hzm, hxm, hxz, _, hor⟩ := Fan.adj_sound k _ _ x hax
+                have hring : Fan.RingMember k (heOf e 0) (acc.getLast?.getD 0) := by
+                  rcases (hmemb _ hz_l).1 with h1 | h1
+                  · exact h1
+                  · rw [h1.1] at hc'; cases hc'
+                obtain ⟨hzhe, c, hzc, _, _, hcd, hcl, hep, hcons⟩ := hring.unpack
+                have hcc : c' = c := by rw [hzc] at hc'; injection hc' with e; exact e.symm
+                subst hcc
+                have hxh : opp (heOf e 0) ∈ k.hfHes x := by
+                  rcases hor with h1 | h1
+                  · exact h1.2
+                  · exact absurd hzhe h1.1
+                have hxeq : opp start = x := by rw [← hxs, CellCheck.opp_opp]
+                have hb : k.hfOnBoundaryOrDeleted (opp start) = false := by
+                  rw [hxeq]; exact Fan.notBoundary_of_cell k x c' (hcons x hxm) hcd
+                have hback : k.adjHalffaceInCell (opp start) (opp (heOf e 0)) = some (acc.getLast?.getD 0) := by
+                  rw [hxeq]
+                  exact Fan.adj_eq_some_of_closed k x (opp (heOf e 0)) c' _ (hcons x hxm) hcl hxm hxh hzm
+                    (by rw [CellCheck.opp_opp]; exact hzhe) (Ne.symm hxz) (hep x hxm (Or.inr hxh)).1
+                obtain ⟨pre2, hp2⟩ := Fan.walkBwd_first k _ _ _ start _ acc _ hb hback hwb
+                rw [hp2] at hnd
+                have := (List.nodup_append.mp hnd).2.1
+                exact (List.nodup_cons.mp this).1 hz_mem
+            · cases h
+
+/-- **after `reorder e`, whenever it stores, the fan of edge `e` is in rotational order** (closed ring
+    or open chain): the slot of halfedge `2e` holds a permutation `l` of the old slot in which every
+    element with a successor is followed by its rotation successor, the last element is a boundary
+    halfface or leads back to the first, and the slot of halfedge `2e+1` is the mirrored reverse
+    (all evaluated in the new state).
+    Partial with respect to C09: assumes that a list is stored (`reorderList_single_fan_stores`
+    shows it for single fans); preservation by later mutators (`RotInv`) is not covered. -/
+theorem reorder_fan_order_partial (k : Kernel) (e : Nat) (l : List Nat)
+    (hok : Fan.FanOK k e) (h : k.reorderList e = some l)
+    (h1 : heOf e 1 < k.incHfs.length) (hl : (k.hfsOf (heOf e 1)).length = (k.hfsOf (heOf e 0)).length) :
+    (k.reorder e).hfsOf (heOf e 0) = l ∧ (k.reorder e).hfsOf (heOf e 1) = l.reverse.map opp ∧
+    l.Perm (k.hfsOf (heOf e 0)) ∧
+    (∀ i, i + 1 < l.length →
+      (k.reorder e).sFanNext (heOf e 0) (l.getD i 0) = some (l.getD (i + 1) 0)) ∧
+    ((k.reorder e).sFanNext (heOf e 0) (l.getD (l.length - 1) 0) = none ∨
+     (k.reorder e).sFanNext (heOf e 0) (l.getD (l.length - 1) 0) = some (l.getD 0 0)) := by
+  obtain ⟨hperm, hfan, hlast⟩ := reorderList_fan_order k e l hok h
+  have hw := reorderWrite_slots k e l h1 (by rw [hl]; exact hperm.length_eq.symm)
+  have hre : k.reorder e = k.reorderWrite e l := by unfold reorder; rw [h]
+  have hframe : ∀ hf, (k.reorder e).sFanNext (heOf e 0) hf = k.sFanNext (heOf e 0) hf := by
+    intro hf
+    unfold sFanNext sAdj sCellOf sCellsOfHf liveCells cellAt hfHes faceAt cDeleted nC
+    simp only [reorder_cells, reorder_faces, reorder_cDel]
+  refine ⟨by rw [hre]; exact hw.1, by rw [hre]; exact hw.2.1, hperm, ?_, ?_⟩
+  · intro i hi; rw [hframe]; exact hfan i hi
+  · rw [hframe]; exact hlast
+
+/-- **`reorder` does not give up on a single closed fan.**  If edge `e` is a `Fan.SingleRing` (a closed
+    ring of cells whose cached list is closed under the rotation and reachable from its first
+    element), `reorder_incident_halffaces(e)` stores a list. -/
+theorem reorderList_single_ring_stores (k : Kernel) (e : Nat) (hs : Fan.SingleRing k e)
+    (hne : k.hfsOf (heOf e 0) ≠ []) : ∃ l, k.reorderList e = some l := by
+  obtain ⟨hr, hclo, hreach⟩ := hs
+  obtain ⟨hnd, hring⟩ := hr
+  -- closure under the model's successor
+  have hcl : ∀ hf ∈ k.hfsOf (heOf e 0), ∀ x, k.adjHalffaceInCell hf (heOf e 0) = some x →
+      opp x ∈ k.hfsOf (heOf e 0) := by
+    intro hf hm x hx
+    obtain ⟨y, hy, hny⟩ := hclo hf hm
+    rw [Fan.sFanNext_of_adj k _ hf x (hring hf hm) hx] at hny
+    injection hny with hny; rw [hny]; exact hy
+  cases hinc : k.hfsOf (heOf e 0) with
+  | nil => exact absurd hinc hne
+  | cons start rest =>
+    have hstart : start ∈ k.hfsOf (heOf e 0) := by rw [hinc]; exact List.mem_cons_self ..
+    obtain ⟨res, hw, hrn, hrs⟩ := Fan.walkFwd_stops k (heOf e 0) start (k.hfsOf (heOf e 0))
+      (fun hf hm _ => hring hf hm) hcl
+      ((k.hfsOf (heOf e 0)).length + 1) start [] (by simp) (by simpa using hstart) (by simp) (by simp)
+      (by exact trivial) (by simp)
+    obtain ⟨hchain, ⟨tl, htl⟩, hclose⟩ :=
+      walkFwd_chain k (heOf e 0) start _ _ start [] res (by exact trivial) hw
+    have hres_ne : res ≠ [] := by rw [htl]; simp
+    have hstart_res : start ∈ res := by rw [htl]; simp
+    -- everything reachable from the start is in the walked list
+    have hreach_res : ∀ i y, Fan.iterNext k (heOf e 0) i start = some y → y ∈ res := by
+      intro i
+      induction i with
+      | zero => intro y hy; simp only [Fan.iterNext, Option.some.injEq] at hy; subst hy; exact hstart_res
+      | succ i ih =>
+        intro y hy
+        simp only [Fan.iterNext] at hy
+        cases hz : Fan.iterNext k (heOf e 0) i start with
+        | none => rw [hz] at hy; cases hy
+        | some z =>
+          rw [hz] at hy
+          simp only [Option.bind_some] at hy
+          have hzr := ih z hz
+          obtain ⟨j, hj, hjz⟩ := List.getElem_of_mem hzr
+          have hzd : res.getD j 0 = z := by
+            rw [List.getD_eq_getElem?_getD, List.getElem?_eq_getElem hj]; exact hjz
+          by_cases hlast : j + 1 < res.length
+          · obtain ⟨x, hx, hnext⟩ := chain_index k (heOf e 0) res j hchain hlast
+            rw [hzd] at hx
+            rw [Fan.sFanNext_of_adj k _ z x (hring z (hrs z hzr)) hx] at hy
+            injection hy with hy
+            rw [← hy, ← hnext, List.getD_eq_getElem?_getD, List.getElem?_eq_getElem hlast]
+            exact List.getElem_mem hlast
+          · have hj' : j = res.length - 1 := by omega
+            have hzl : res.getLast?.getD 0 = z := by rw [getLast?_getD_eq, ← hj', hzd]
+            rw [hzl] at hclose
+            rcases hclose with hb | ⟨x, hx, hxs⟩
+            · rw [Fan.ring_notBoundary k _ z (hring z (hrs z hzr))] at hb; cases hb
+            · rw [Fan.sFanNext_of_adj k _ z x (hring z (hrs z hzr)) hx] at hy
+              injection hy with hy
+              rw [← hy, hxs]; exact hstart_res
+    have hsub : ∀ y ∈ k.hfsOf (heOf e 0), y ∈ res := by
+      intro y hy
+      obtain ⟨i, _, hi⟩ := hreach y hy
+      have hhd : (k.hfsOf (heOf e 0)).headD 0 = start := by rw [hinc]; rfl
+      rw [hhd] at hi
+      exact hreach_res i y hi
+    have hperm : res.Perm (k.hfsOf (heOf e 0)) :=
+      (List.perm_ext_iff_of_nodup hrn hnd).mpr (fun a => ⟨hrs a, hsub a⟩)
+    have hlen : res.length = (k.hfsOf (heOf e 0)).length := hperm.length_eq
+    -- at least two halffaces: the successor of the start is another member
+    have h2 : ¬ (k.hfsOf (heOf e 0)).length < 2 := by
+      obtain ⟨x, hx, _⟩ := Fan.ring_adj k _ start (hring start hstart)
+      obtain ⟨_, _, _, _, _, hx2, _⟩ := Fan.adj_sound k _ _ x hx
+      have hne2 : opp x ≠ start := by
+        intro e2; apply hx2; rw [← e2, CellCheck.opp_opp]
+      have hm2 : opp x ∈ k.hfsOf (heOf e 0) := hcl start hstart x hx
+      rw [hinc] at hm2 ⊢
+      cases rest with
+      | nil => simp only [List.mem_singleton] at hm2; exact absurd hm2 hne2
+      | cons b t => simp
+    refine ⟨res, ?_⟩
+    unfold reorderList
+    have hhead : (k.hfsOf (heOf e 0)).head? = some start := by rw [hinc]; rfl
+    have hnb : (res.length != (k.hfsOf (heOf e 0)).length) = false := by simp [hlen]
+    have hip : res.isPerm (k.hfsOf (heOf e 0)) = true := List.isPerm_iff.mpr hperm
+    simp only [h2, if_false, hhead, hw, hnb, Bool.false_eq_true]
+    simp only [hlen, beq_self_eq_true, hip, Bool.and_self, if_true]
+
+/-- **after `reorder e` a single closed fan is in rotational order.**  For a `Fan.SingleRing` edge
+    with its two cache slots present and of equal length: the call stores a list `l`; afterwards
+    the slot of halfedge `2e` is `l`, a permutation of the old slot in which every halfface is
+    followed cyclically by its rotation successor (`sFanNext`, evaluated in the new state), and
+    the slot of halfedge `2e+1` is the mirrored reverse `l.reverse.map opp`.
+    Partial with respect to C09: the open chain (fan ending in boundary halffaces) and the
+    preservation of the order by later mutators (`RotInv`) are not covered. -/
+theorem reorder_single_ring_partial (k : Kernel) (e : Nat) (hs : Fan.SingleRing k e)
+    (hne : k.hfsOf (heOf e 0) ≠ [])
+    (h1 : heOf e 1 < k.incHfs.length) (hl : (k.hfsOf (heOf e 1)).length = (k.hfsOf (heOf e 0)).length) :
+    ∃ l, (k.reorder e).hfsOf (heOf e 0) = l ∧ (k.reorder e).hfsOf (heOf e 1) = l.reverse.map opp ∧
+      l.Perm (k.hfsOf (heOf e 0)) ∧
+      ∀ i, i < l.length →
+        (k.reorder e).sFanNext (heOf e 0) (l.getD i 0) = some (l.getD ((i + 1) % l.length) 0) := by
+  obtain ⟨l, h⟩ := reorderList_single_ring_stores k e hs hne
+  exact ⟨l, reorder_closed_ring_partial k e l hs.1 h h1 hl⟩
+
+theorem chain_link (k : Kernel) (he : Nat) : ∀ (l : List Nat), Chain k he l → Fan.Link k he l := by
+  intro l
+  induction l with
+  | nil => intro _; trivial
+  | cons a t ih =>
+    intro hc
+    cases t with
+    | nil => trivial
+    | cons b r => exact ⟨hc.2.1, ih hc.2.2⟩
+
+/-- **`reorder` does not give up on a single fan**, closed ring or open chain: if edge `e` is a
+    `Fan.SingleFan` with at least two cached halffaces, `reorder_incident_halffaces(e)` stores a list
+    (with fewer than two halffaces the function returns at once and there is nothing to order). -/
+theorem reorderList_single_fan_stores (k : Kernel) (e : Nat) (hs : Fan.SingleFan k e)
+    (h2 : 2 ≤ (k.hfsOf (heOf e 0)).length) : ∃ l, k.reorderList e = some l := by
+  obtain ⟨hok, hclf, hclb, hconn⟩ := hs
+  obtain ⟨hnd, hfm⟩ := hok
+  have hclf' : ∀ hf ∈ k.hfsOf (heOf e 0), ∀ y, k.sFanNext (heOf e 0) hf = some y → y ∈ k.hfsOf (heOf e 0) :=
+    fun hf hm y hy => hclf hf hm y (Option.mem_def.mpr hy)
+  have hringF : ∀ hf ∈ k.hfsOf (heOf e 0), k.hfOnBoundaryOrDeleted hf = false →
+      Fan.RingMember k (heOf e 0) hf := fun hf hm hb => (hfm hf hm).ring_of_notBoundary hb
+  have hclF : ∀ hf ∈ k.hfsOf (heOf e 0), ∀ x, k.adjHalffaceInCell hf (heOf e 0) = some x →
+      opp x ∈ k.hfsOf (heOf e 0) := by
+    intro hf hm x hx
+    exact hclf' hf hm (opp x) (Fan.sFanNext_of_adj k _ hf x ((hfm hf hm).ring_of_adj hx) hx)
+  have hringB' : ∀ hf ∈ k.hfsOf (heOf e 0), k.cellOf (opp hf) ≠ none →
+      Fan.RingMember k (opp (heOf e 0)) (opp hf) := by
+    intro hf hm hc
+    rcases (hfm hf hm).2 with h0 | h0
+    · exact absurd h0 hc
+    · exact h0
+  have hringB : ∀ hf ∈ k.hfsOf (heOf e 0), k.hfOnBoundaryOrDeleted (opp hf) = false →
+      Fan.RingMember k (opp (heOf e 0)) (opp hf) := by
+    intro hf hm hb
+    apply hringB' hf hm
+    intro h0; rw [Fan.boundary_of_cellOf_none k _ h0] at hb; cases hb
+  have hclB : ∀ hf ∈ k.hfsOf (heOf e 0), ∀ a, k.adjHalffaceInCell (opp hf) (opp (heOf e 0)) = some a →
+      a ∈ k.hfsOf (heOf e 0) := by
+    intro hf hm a ha
+    obtain ⟨c, hc, _⟩ := Fan.adj_sound k _ _ a ha
+    have hr := hringB' hf hm (by rw [hc]; simp)
+    have := hclb hf hm (opp a) (Option.mem_def.mpr (Fan.sFanNext_of_adj k _ _ a hr ha))
+    rwa [CellCheck.opp_opp] at this
+  cases hinc : k.hfsOf (heOf e 0) with
+  | nil => rw [hinc] at h2; simp at h2
+  | cons start rest =>
+    have hstart : start ∈ k.hfsOf (heOf e 0) := by rw [hinc]; exact List.mem_cons_self ..
+    have hhd : (k.hfsOf (heOf e 0)).headD 0 = start := by rw [hinc]; rfl
+    obtain ⟨fwd, hw, hfn, hfs⟩ := Fan.walkFwd_stops k (heOf e 0) start (k.hfsOf (heOf e 0)) hringF hclF
+      ((k.hfsOf (heOf e 0)).length + 1) start [] (by simp) (by simpa using hstart) (by simp) (by simp)
+      (by exact trivial) (by simp)
+    obtain ⟨hchain, ⟨tl, htl⟩, hclose⟩ :=
+      walkFwd_chain k (heOf e 0) start _ _ start [] fwd (by exact trivial) hw
+    have hfwd_ne : fwd ≠ [] := by rw [htl]; simp
+    have hfwd_head : fwd.head? = some start := by rw [htl]; simp
+    have hfwd_headD : fwd.headD 0 = start := by rw [htl]; simp
+    have hstart_fwd : start ∈ fwd := by rw [htl]; simp
+    have hlink := chain_link k (heOf e 0) fwd hchain
+    -- a walked list that is closed under successors and predecessors is the whole fan
+    have cover : ∀ R : List Nat, R.Nodup → (∀ y ∈ R, y ∈ k.hfsOf (heOf e 0)) → start ∈ R →
+        (∀ z y, z ∈ R → k.sFanNext (heOf e 0) z = some y → y ∈ R) →
+        (∀ p q, p ∈ k.hfsOf (heOf e 0) → k.sFanNext (heOf e 0) p = some q → q ∈ R → p ∈ R) →
+        R.Perm (k.hfsOf (heOf e 0)) := by
+      intro R hRn hRs hsR hsc hpc
+      refine (List.perm_ext_iff_of_nodup hRn hnd).mpr (fun a => ⟨hRs a, fun ha => ?_⟩)
+      rcases hconn a ha with ⟨i, _, hi⟩ | ⟨i, _, hi⟩
+      · rw [hhd] at hi; exact Fan.reach_fwd k _ R hsc i start a hsR hi
+      · rw [hhd] at hi; exact Fan.reach_bwd k _ _ R hclf' hpc i a start ha hi hsR
+    have hn2 : ¬ (k.hfsOf (heOf e 0)).length < 2 := by omega
+    have hhead : (k.hfsOf (heOf e 0)).head? = some start := by rw [hinc]; rfl
+    -- storing a list that is a permutation
+    have store_fwd : fwd.Perm (k.hfsOf (heOf e 0)) → ∃ l, k.reorderList e = some l := by
+      intro hperm
+      have hlen := hperm.length_eq
+      have hnb : (fwd.length != (k.hfsOf (heOf e 0)).length) = false := by simp [hlen]
+      have hip : fwd.isPerm (k.hfsOf (heOf e 0)) = true := List.isPerm_iff.mpr hperm
+      refine ⟨fwd, ?_⟩
+      unfold reorderList
+      simp only [hn2, if_false, hhead, hw, hnb, Bool.false_eq_true]
+      simp only [hlen, beq_self_eq_true, hip, Bool.and_self, if_true]
+    rcases hclose with hb | ⟨x, hx, hxs⟩
+    · -- the forward walk ended at a boundary halfface: the backward walk completes the chain
+      obtain ⟨R, hwb, hRn, hRs, hRl, hRfirst, pre, hpre⟩ :=
+        Fan.walkBwd_stops k (heOf e 0) (k.hfsOf (heOf e 0)) hringB hclB
+          ((k.hfsOf (heOf e 0)).length + 1) start fwd hfn hfs hfwd_head hlink hb
+          (by have : 1 ≤ fwd.length := List.length_pos_iff.mpr hfwd_ne
+              omega)
+      have hRlast : R.getLast?.getD 0 = fwd.getLast?.getD 0 := by
+        rw [hpre, List.getLast?_append, List.getLast?_eq_some_getLast hfwd_ne]; rfl
+      have hsR : start ∈ R := by rw [hpre]; exact List.mem_append_right _ hstart_fwd
+      have hperm := cover R hRn hRs hsR
+        (Fan.succ_closed k _ _ R hfm hRs hRl (Or.inl (by rw [hRlast]; exact hb)))
+        (Fan.pred_closed k _ _ R hfm hRs hRl (Or.inl hRfirst))
+      by_cases hlen : fwd.length = (k.hfsOf (heOf e 0)).length
+      · have hpl : pre = [] := by
+          have h1 := hperm.length_eq
+          rw [hpre, List.length_append] at h1
+          exact List.eq_nil_of_length_eq_zero (by omega)
+        rw [hpl, List.nil_append] at hpre
+        exact store_fwd (hpre ▸ hperm)
+      · have hnb : (fwd.length != (k.hfsOf (heOf e 0)).length) = true := by simp [hlen]
+        have hip : R.isPerm (k.hfsOf (heOf e 0)) = true := List.isPerm_iff.mpr hperm
+        have hRlen := hperm.length_eq
+        refine ⟨R, ?_⟩
+        unfold reorderList
+        simp only [hn2, if_false, hhead, hw, hnb, if_true, hwb]
+        simp only [hRlen, beq_self_eq_true, hip, Bool.and_self, if_true]
+    · -- the forward walk came back to its start: it is the whole ring
+      have hlast : k.hfOnBoundaryOrDeleted (fwd.getLast?.getD 0) = true ∨
+          ∃ x, k.adjHalffaceInCell (fwd.getLast?.getD 0) (heOf e 0) = some x ∧ opp x = fwd.headD 0 :=
+        Or.inr ⟨x, hx, by rw [hfwd_headD]; exact hxs⟩
+      exact store_fwd (cover fwd hfn hfs hstart_fwd
+        (Fan.succ_closed k _ _ fwd hfm hfs hlink hlast)
+        (Fan.pred_closed k _ _ fwd hfm hfs hlink (Or.inr ⟨x, hx, by rw [hfwd_headD]; exact hxs⟩)))
+
+/-- **after `reorder e` a single fan is in rotational order** (closed ring or open chain, any valence
+    ≥ 2).  For a `Fan.SingleFan` edge with its two cache slots present and of equal length, the call
+    stores a list `l`; afterwards the slot of halfedge `2e` is `l`, a permutation of the old slot in
+    which every element with a successor in `l` is followed by its rotation successor `sFanNext`
+    (hence is not a boundary halfface), the last element is a boundary halfface or leads back to
+    the first, and the slot of halfedge `2e+1` is the mirrored reverse — all in the new state.
+    Partial with respect to C09 only in that preservation of this order by later mutators
+    (`RotInv` across histories) is not covered. -/
+theorem reorder_single_fan_partial (k : Kernel) (e : Nat) (hs : Fan.SingleFan k e)
+    (h2 : 2 ≤ (k.hfsOf (heOf e 0)).length)
+    (h1 : heOf e 1 < k.incHfs.length) (hl : (k.hfsOf (heOf e 1)).length = (k.hfsOf (heOf e 0)).length) :
+    ∃ l, (k.reorder e).hfsOf (heOf e 0) = l ∧ (k.reorder e).hfsOf (heOf e 1) = l.reverse.map opp ∧
+      l.Perm (k.hfsOf (heOf e 0)) ∧
+      (∀ i, i + 1 < l.length →
+        (k.reorder e).sFanNext (heOf e 0) (l.getD i 0) = some (l.getD (i + 1) 0)) ∧
+      ((k.reorder e).sFanNext (heOf e 0) (l.getD (l.length - 1) 0) = none ∨
+       (k.reorder e).sFanNext (heOf e 0) (l.getD (l.length - 1) 0) = some (l.getD 0 0)) := by
+  obtain ⟨l, h⟩ := reorderList_single_fan_stores k e hs h2
+  exact ⟨l, reorder_fan_order_partial k e l hs.1 h h1 hl⟩
+
+/-! ### towards `RotInv`: `reorder` establishes the order at its edge and keeps it elsewhere -/
+
+theorem reorder_sameDefs (k : Kernel) (e : Nat) : Fan.SameDefs k (k.reorder e) :=
+  ⟨reorder_cells k e, reorder_faces k e, reorder_cDel k e, reorder_incCell k e⟩
+
+theorem heOf_ne_of_ne {e e' : Nat} (hne : e ≠ e') (s s' : Nat) (hs : s < 2) (hs' : s' < 2) :
+    heOf e s ≠ heOf e' s' := by unfold heOf; omega
+
+/-- the slots of edge `e` are usable: both exist with equal length, and there are at least two
+    halffaces (with fewer `reorder` returns at once) -/
+def SlotsOK (k : Kernel) (e : Nat) : Prop :=
+  heOf e 1 < k.incHfs.length ∧ (k.hfsOf (heOf e 1)).length = (k.hfsOf (heOf e 0)).length ∧
+  2 ≤ (k.hfsOf (heOf e 0)).length
+
+instance (k : Kernel) (e : Nat) : Decidable (SlotsOK k e) := by unfold SlotsOK; exact inferInstance
+
+/-- **`reorder e` establishes the rotational order at `e`** when `e` is a single fan (closed or open) -/
+theorem reorder_establishes_order (k : Kernel) (e : Nat) (hs : Fan.SingleFan k e) (hok : SlotsOK k e) :
+    Fan.FanOrdered (k.reorder e) e := by
+  obtain ⟨l, h0, h1, _, hfan, hlast⟩ := reorder_single_fan_partial k e hs hok.2.2 hok.1 hok.2.1
+  unfold Fan.FanOrdered
+  rw [h0, h1]
+  exact ⟨fun i hi => hfan i (by omega), hlast, rfl⟩
+
+/-- `reorder e'` changes nothing the predicates at another edge `e` read -/
+theorem reorder_elsewhere (k : Kernel) (e e' : Nat) (hne : e ≠ e') :
+    (Fan.FanOrdered (k.reorder e') e ↔ Fan.FanOrdered k e) ∧
+    (Fan.SingleFan (k.reorder e') e ↔ Fan.SingleFan k e) ∧ (SlotsOK (k.reorder e') e ↔ SlotsOK k e) := by
+  have h0 : (k.reorder e').hfsOf (heOf e 0) = k.hfsOf (heOf e 0) :=
+    reorder_other_slots k e' _ (heOf_ne_of_ne hne 0 0 (by omega) (by omega))
+      (heOf_ne_of_ne hne 0 1 (by omega) (by omega))
+  have h1 : (k.reorder e').hfsOf (heOf e 1) = k.hfsOf (heOf e 1) :=
+    reorder_other_slots k e' _ (heOf_ne_of_ne hne 1 0 (by omega) (by omega))
+      (heOf_ne_of_ne hne 1 1 (by omega) (by omega))
+  refine ⟨(reorder_sameDefs k e').fanOrdered e h0 h1, (reorder_sameDefs k e').singleFan e h0, ?_⟩
+  unfold SlotsOK
+  rw [h0, h1, reorder_incHfs_length]
+
+theorem foldl_reorder_keeps_order (es : List Nat) (e : Nat) (hne : e ∉ es) :
+    ∀ (k : Kernel), Fan.FanOrdered k e → Fan.FanOrdered (es.foldl reorder k) e := by
+  induction es with
+  | nil => intro k h; exact h
+  | cons e1 t ih =>
+    intro k h
+    simp only [List.foldl_cons]
+    have hne1 : e ≠ e1 := fun h' => hne (h' ▸ List.mem_cons_self ..)
+    exact ih (fun hm => hne (List.mem_cons_of_mem _ hm)) _ ((reorder_elsewhere k e e1 hne1).1.mpr h)
+
+/-- **a sweep of `reorder` over pairwise different edges puts every single fan among them in
+    rotational order** (this is the loop `add_cell`, `delete_face_core` and `delete_cell_core` run
+    over the affected edges) -/
+theorem foldl_reorder_orders (es : List Nat) (hnd : es.Nodup) :
+    ∀ (k : Kernel) (e : Nat), e ∈ es → Fan.SingleFan k e → SlotsOK k e →
+      Fan.FanOrdered (es.foldl reorder k) e := by
+  induction es with
+  | nil => intro k e he; cases he
+  | cons e1 t ih =>
+    intro k e he hs hok
+    simp only [List.foldl_cons]
+    obtain ⟨hnot, hndt⟩ := List.nodup_cons.mp hnd
+    by_cases h1 : e = e1
+    · subst h1
+      exact foldl_reorder_keeps_order t e hnot _ (reorder_establishes_order k e hs hok)
+    · have het : e ∈ t := by
+        rcases List.mem_cons.mp he with h | h
+        · exact absurd h h1
+        · exact h
+      obtain ⟨_, hsf, hsl⟩ := reorder_elsewhere k e e1 h1
+      exact ih hndt _ e het (hsf.mpr hs) (hsl.mpr hok)
+
+/-- the state inside `add_cell` after the cell has been stored and recorded in
+    `incident_cell_per_hf_` (cc:438-470), before the affected edges are reordered -/
+def addCellPre (k : Kernel) (hfs : List Nat) : Kernel :=
+  { k with cells := k.cells ++ [hfs], cDel := k.cDel ++ [false], props := resizeC k.props (k.nC + 1),
+           incCell := hfs.foldl (fun ic hf => ic.set hf (some k.nC)) k.incCell }
+
+theorem addCellCore_eq_sweep (k : Kernel) (hfs : List Nat) (hfb : k.fBU = true) (heb : k.eBU = true) :
+    k.addCellCore hfs = ((addCellPre k hfs).cellEdges hfs).foldl reorder (addCellPre k hfs) := by
+  unfold addCellCore addCellPre; simp [hfb, heb]
+
+/-- **`add_cell` leaves every affected single-fan edge in rotational order** (partial `RotInv`).
+    With face and edge bottom-up incidences on, `add_cell` first records the new cell in
+    `incident_cell_per_hf_` (state `addCellPre k hfs`) and then reorders the edges of the cell; every
+    such edge that is a single fan in that state is in rotational order in the resulting mesh.
+    Not covered: that the edges *not* touched by the new cell keep their order (their lists and
+    successor maps do not change, but this is not proved here), and the deleting mutators. -/
+theorem addCellCore_orders_affected_partial (k : Kernel) (hfs : List Nat) (hfb : k.fBU = true)
+    (heb : k.eBU = true) (e : Nat) (he : e ∈ (addCellPre k hfs).cellEdges hfs)
+    (hs : Fan.SingleFan (addCellPre k hfs) e) (hok : SlotsOK (addCellPre k hfs) e) :
+    Fan.FanOrdered (k.addCellCore hfs) e := by
+  rw [addCellCore_eq_sweep k hfs hfb heb]
+  exact foldl_reorder_orders _ (Fan.toSet_nodup _) _ e he hs hok
+
+/-- non-vacuity: three tetrahedra around the edge 0 = (0,1) (a closed ring of valence 3).  The
+    cached list of halfedge 0 is given in the wrong rotational sense; the edge is a `ClosedRing`;
+    `reorder` stores `[0, 4, 2]`, which is in fan order; in-cell adjacency across the edge is an
+    involution; a boundary edge of the same mesh is not a closed ring; and in a "pillow" cell made
+    of both halffaces of one face the adjacency is the invalid handle. -/
+example :
+    let k : Kernel :=
+      { nV := 5,
+        edges := [(0, 1), (1, 2), (2, 0), (1, 3), (3, 0), (1, 4), (4, 0), (2, 3), (3, 4), (4, 2)],
+        faces := [[0, 2, 4], [0, 6, 8], [0, 10, 12], [5, 14, 8], [2, 14, 7], [9, 16, 12], [6, 16, 11],
+                  [13, 18, 4], [10, 18, 3]],
+        cells := [[1, 2, 7, 8], [3, 4, 11, 12], [5, 0, 15, 16]],
+        vDel := List.replicate 5 false, eDel := List.replicate 10 false, fDel := List.replicate 9 false,
+        cDel := List.replicate 3 false,
+        outHes := [[0, 5, 9, 13], [1, 2, 6, 10], [3, 4, 14, 19], [7, 8, 15, 16], [11, 12, 17, 18]],
+        incHfs := [[0, 2, 4], [5, 3, 1], [8, 0, 17], [16, 1, 9], [7, 0, 14], [15, 1, 6], [12, 2, 9],
+                   [8, 3, 13], [11, 2, 6], [7, 3, 10], [16, 4, 13], [12, 5, 17], [15, 4, 10], [11, 5, 14],
+                   [8, 6], [7, 9], [12, 10], [11, 13], [16, 14], [15, 17]],
+        incCell := [some 2, some 0, some 0, some 1, some 1, some 2, none, some 0, some 0, none, none,
+                    some 1, some 1, none, none, some 2, some 2, none] }
+    Fan.ClosedRing k 0 ∧ Fan.SingleRing k 0 ∧ Fan.SingleFan k 0 ∧ ¬ Fan.ClosedRing k 1 ∧ k.reorderList 0 = some [0, 4, 2] ∧
+    (k.reorder 0).hfsOf 0 = [0, 4, 2] ∧ (k.reorder 0).hfsOf 1 = [3, 5, 1] ∧
+    k.sFanNext 0 0 = some 4 ∧ k.sFanNext 0 4 = some 2 ∧ k.sFanNext 0 2 = some 0 ∧
+    k.adjHalffaceInCell 0 0 = some 5 ∧ k.adjHalffaceInCell 5 1 = some 0 ∧
+    k.adjHalffaceInCell 0 1 = some 5 ∧ k.adjHalffaceInCell 5 0 = some 0 := by decide
+
+/-- non-vacuity of `reorderList_fan_order` on an open chain: two of the three tetrahedra; the cached
+    list of halfedge 0 starts in the middle of the chain, so both directions of the walk are used;
+    the stored order is `[4, 2, 0]` with the boundary halfface 0 last -/
+example :
+    let k : Kernel :=
+      { nV := 5,
+        edges := [(0, 1), (1, 2), (2, 0), (1, 3), (3, 0), (1, 4), (4, 0), (2, 3), (3, 4), (4, 2)],
+        faces := [[0, 2, 4], [0, 6, 8], [0, 10, 12], [5, 14, 8], [2, 14, 7], [9, 16, 12], [6, 16, 11],
+                  [13, 18, 4], [10, 18, 3]],
+        cells := [[1, 2, 7, 8], [3, 4, 11, 12]],
+        vDel := List.replicate 5 false, eDel := List.replicate 10 false, fDel := List.replicate 9 false,
+        cDel := List.replicate 2 false,
+        outHes := [[0, 5, 9, 13], [1, 2, 6, 10], [3, 4, 14, 19], [7, 8, 15, 16], [11, 12, 17, 18]],
+        incHfs := [[2, 0, 4], [5, 1, 3], [8, 0, 17], [16, 1, 9], [7, 0, 14], [15, 1, 6], [12, 2, 9],
+                   [8, 3, 13], [11, 2, 6], [7, 3, 10], [16, 4, 13], [12, 5, 17], [15, 4, 10], [11, 5, 14],
+                   [8, 6], [7, 9], [12, 10], [11, 13], [16, 14], [15, 17]],
+        incCell := [none, some 0, some 0, some 1, some 1, none, none, some 0, some 0, none, none,
+                    some 1, some 1, none, none, none, none, none] }
+    Fan.FanOK k 0 ∧ Fan.SingleFan k 0 ∧ ¬ Fan.ClosedRing k 0 ∧ k.reorderList 0 = some [4, 2, 0] ∧
+    k.sFanNext 0 4 = some 2 ∧ k.sFanNext 0 2 = some 0 ∧ k.sFanNext 0 0 = none ∧
+    (k.reorder 0).hfsOf 1 = [1, 3, 5] := by decide
+
+/-- non-vacuity of `addCellCore_orders_affected_partial`: adding the third tetrahedron to the two of
+    the previous example closes the ring around edge 0; the edge is among the reordered ones, is a
+    single fan with usable slots in the intermediate state, and ends up in rotational order -/
+example :
+    let k : Kernel :=
+      { nV := 5,
+        edges := [(0, 1), (1, 2), (2, 0), (1, 3), (3, 0), (1, 4), (4, 0), (2, 3), (3, 4), (4, 2)],
+        faces := [[0, 2, 4], [0, 6, 8], [0, 10, 12], [5, 14, 8], [2, 14, 7], [9, 16, 12], [6, 16, 11],
+                  [13, 18, 4], [10, 18, 3]],
+        cells := [[1, 2, 7, 8], [3, 4, 11, 12]],
+        vDel := List.replicate 5 false, eDel := List.replicate 10 false, fDel := List.replicate 9 false,
+        cDel := List.replicate 2 false,
+        outHes := [[0, 5, 9, 13], [1, 2, 6, 10], [3, 4, 14, 19], [7, 8, 15, 16], [11, 12, 17, 18]],
+        incHfs := [[0, 2, 4], [5, 3, 1], [8, 0, 17], [16, 1, 9], [7, 0, 14], [15, 1, 6], [12, 2, 9],
+                   [8, 3, 13], [11, 2, 6], [7, 3, 10], [16, 4, 13], [12, 5, 17], [15, 4, 10], [11, 5, 14],
+                   [8, 6], [7, 9], [12, 10], [11, 13], [16, 14], [15, 17]],
+        incCell := [none, some 0, some 0, some 1, some 1, none, none, some 0, some 0, none, none,
+                    some 1, some 1, none, none, none, none, none] }
+    0 ∈ (addCellPre k [5, 0, 15, 16]).cellEdges [5, 0, 15, 16] ∧
+    Fan.SingleFan (addCellPre k [5, 0, 15, 16]) 0 ∧ SlotsOK (addCellPre k [5, 0, 15, 16]) 0 ∧
+    Fan.FanOrdered (k.addCellCore [5, 0, 15, 16]) 0 ∧ ¬ Fan.FanOrdered (addCellPre k [5, 0, 15, 16]) 0 ∧
+    (k.addCellCore [5, 0, 15, 16]).hfsOf 0 = [0, 4, 2] := by decide
+
+example :
+    let k : Kernel :=
+      { nV := 3, edges := [(0, 1), (1, 2), (2, 0)], faces := [[0, 2, 4]], cells := [[0, 1]],
+        vDel := List.replicate 3 false, eDel := List.replicate 3 false, fDel := [false], cDel := [false],
+        incCell := [some 0, some 0], vBU := false, eBU := false }
+    ClosedSurface k (k.cellAt 0) ∧ k.adjHalffaceInCell 0 0 = none ∧ k.adjHalffaceInCell 1 1 = none := by
+  decide
 
 end OVM.Props.C09
